@@ -23,8 +23,8 @@ MATRIX_T = ("Matrix<",)
 
 
 def is_matrix_type(t):
-    t = t or ""
-    return any(m in t for m in ("bpp::Matrix<", "bpp::RowMatrix<", "bpp::ColMatrix<", "bpp::LinearMatrix<"))
+    t = (t or "").replace("const ", "").strip()
+    return any(t.startswith(m) for m in ("bpp::Matrix<", "bpp::RowMatrix<", "bpp::ColMatrix<", "bpp::LinearMatrix<"))
 
 
 def is_vector_type(t):
@@ -44,6 +44,8 @@ class Fun:
         self.inv = invariants or {}      # field name -> {'R':expr,'C':expr} | {'N':expr}  (class invariants, as text over field names)
         self._mut = None
         self.assume_atoms = set()
+        self.wrap = {}
+        self.approx_loops = set()
 
     def sym(self, kind, root):
         name = "%s_%s" % (kind, root)
@@ -268,6 +270,19 @@ class Fun:
                         return None
             up = inc["k"] == "UnaryOperator" and inc["op"] == "++" and strip(kids(inc)[0])["k"] == "DeclRefExpr" and strip(kids(inc)[0])["decl"]["id"] == var_id
             down = inc["k"] == "UnaryOperator" and inc["op"] == "--" and strip(kids(inc)[0])["k"] == "DeclRefExpr" and strip(kids(inc)[0])["decl"]["id"] == var_id
+            if start is None and not getattr(self, "_in_tri", False):
+                # triangular loop: 'for (j = i + 1; ...)' - start from the smallest value of the outer expression
+                # (sound for proofs; such loops are never used to build a refuting shape)
+                sn = kids(init)[1] if init["k"] == "BinaryOperator" else [d for d in init["decls"] if d["id"] == var_id][0].get("init")
+                if sn is not None:
+                    self._in_tri = True
+                    try:
+                        b_ = self.index_bounds(sn, lp)
+                    finally:
+                        self._in_tri = False
+                    if b_ is not None:
+                        start = b_[0]
+                        self.approx_loops.add(var_id)
             if cond["k"] != "BinaryOperator" or start is None:
                 return None
             l, r = strip(kids(cond)[0]), strip(kids(cond)[1])
@@ -275,6 +290,15 @@ class Fun:
                 bound = self.size_expr(r, lp)
                 if bound is None:
                     return None
+                # unsigned arithmetic: 'n - 1' as a loop bound (or start) must not go below zero
+                vname = l["decl"]["name"]
+                ws = []
+                if any(x["k"] == "BinaryOperator" and x["op"] == "-" and "unsigned" in (x.get("ty") or "") for x in walk(r)):
+                    ws.append(bound)
+                if any(x["k"] == "BinaryOperator" and x["op"] == "-" and "unsigned" in (x.get("ty") or "") for x in walk(init)):
+                    ws.append(start)
+                if ws:
+                    self.wrap[(vname, lp["id"])] = ws
                 if up and cond["op"] in ("<", "!="):
                     return (start, bound)
                 if up and cond["op"] == "<=":
@@ -314,6 +338,8 @@ class Fun:
                 rg = self.loop_range(d["id"], site)
                 if rg is not None:
                     loops[d["name"]] = rg
+                    if d["id"] in self.approx_loops:
+                        loops["~approx"] = (S.Integer(0), S.Integer(1))
                     return (rg[0], rg[1] - 1)
                 if d["id"] in self.sub:
                     return ev(self.sub[d["id"]], depth + 1)
@@ -539,6 +565,8 @@ class Fun:
                         if x["k"] == "DeclRefExpr" and x["decl"]["kind"] in ("local", "param"):
                             rg = self.loop_range(x["decl"]["id"], site)
                             if rg is not None:
+                                if x["decl"]["id"] in self.approx_loops:
+                                    return loops, "inside a triangular loop (start approximated)"
                                 loops[x["decl"]["name"]] = rg
                                 got = True
                 if got:
@@ -585,38 +613,103 @@ def _nonneg_poly(S, e, depth=0):
     return all(c >= 0 for c in p.coeffs())
 
 
-def _apply_eqs(S, e, rels):
-    """substitute symbol equalities (Eq(sym, expr)) into e"""
-    for _ in range(4):
-        changed = False
-        for r in rels:
-            if isinstance(r, S.Equality):
-                a, b = r.lhs, r.rhs
-                if a.is_Symbol and e.has(a) and not b.has(a):
-                    e = e.subs(a, b)
-                    changed = True
-                elif b.is_Symbol and e.has(b) and not a.has(b):
-                    e = e.subs(b, a)
-                    changed = True
-        if not changed:
+def _slacks(S, rels):
+    """non-negative quantities given by the inequality facts: X >= Y gives X - Y, X > Y gives X - Y - 1, X != 0 gives X - 1"""
+    out = []
+    for r in rels:
+        e = None
+        if isinstance(r, S.GreaterThan):
+            e = r.lhs - r.rhs
+        elif isinstance(r, S.StrictGreaterThan):
+            e = r.lhs - r.rhs - 1
+        elif isinstance(r, S.LessThan):
+            e = r.rhs - r.lhs
+        elif isinstance(r, S.StrictLessThan):
+            e = r.rhs - r.lhs - 1
+        elif isinstance(r, S.Unequality):
+            if r.rhs == 0:
+                e = r.lhs - 1
+            elif r.lhs == 0:
+                e = r.rhs - 1
+        if e is not None:
+            out.append(_apply_eqs(S, e, rels))
+    # an eliminated size symbol is still non-negative
+    for sym, val in _elimination(S, rels):
+        v = _apply_eqs(S, val, rels)
+        if not _nonneg_poly(S, v):
+            out.append(v)
+    return out
+
+
+def _nonneg_with(S, e, slacks):
+    """e >= 0 follows when e minus a non-negative combination (coefficients 1..2, up to two facts) of the slack
+    quantities is a polynomial with non-negative coefficients"""
+    if _nonneg_poly(S, e):
+        return True
+    for a in slacks:
+        for ka in (1, 2):
+            if _nonneg_poly(S, e - ka * a):
+                return True
+    for i, a in enumerate(slacks):
+        for b in slacks[i + 1:]:
+            if _nonneg_poly(S, e - a - b):
+                return True
+    return False
+
+
+_ELIM = {}
+
+
+def _elimination(S, rels):
+    """Gaussian elimination over the equality facts (linear, unit coefficient on the eliminated symbol): list of
+    (symbol, expression) substitutions, applied in order"""
+    key = tuple(sorted(str(r) for r in rels))
+    if key in _ELIM:
+        return _ELIM[key]
+    eqs = [r.lhs - r.rhs for r in rels if isinstance(r, S.Equality)]
+    subs = []
+    for _ in range(len(eqs)):
+        done = False
+        for i, e in enumerate(eqs):
+            e = S.expand(e)
+            if e == 0:
+                continue
+            for sym in sorted(e.free_symbols, key=str, reverse=True):
+                c = e.coeff(sym)
+                if c in (1, -1) and not (e - c * sym).has(sym):
+                    val = S.expand(-(e - c * sym) / c)
+                    subs.append((sym, val))
+                    eqs = [S.expand(x.subs(sym, val)) for j, x in enumerate(eqs) if j != i]
+                    done = True
+                    break
+            if done:
+                break
+        if not done:
             break
-    return e
+    _ELIM[key] = subs
+    return subs
 
 
-def decide(S, lo, hi, dim, rels, loops, unparsed, extra_nonempty=(), disjuncts=None, blocked=None):
+def _apply_eqs(S, e, rels):
+    """rewrite e modulo the equality facts"""
+    for sym, val in _elimination(S, rels):
+        if e.has(sym):
+            e = e.subs(sym, val)
+    return S.expand(e)
+
+
+def decide(S, lo, hi, dim, rels, loops, unparsed, extra_nonempty=(), disjuncts=None, blocked=None, wraps=None):
     """verdict for one index against one dimension: ('PROVED'|'REFUTED'|'UNKNOWN', detail, witness)"""
     if hi is None or dim is None or lo is None:
         return ("UNKNOWN", "bound or dimension not a size expression", None)
     gap = _apply_eqs(S, dim - hi - 1, rels)
     lo2 = _apply_eqs(S, lo, rels)
-    ok_hi = _nonneg_poly(S, gap)
-    ok_lo = _nonneg_poly(S, lo2)
-    if not ok_hi:
-        # inequalities among the facts: dim >= x  etc.  (try adding each Ge/Gt fact)
-        for r in rels:
-            if isinstance(r, (S.GreaterThan, S.StrictGreaterThan)) and _nonneg_poly(S, S.expand(gap - (r.lhs - r.rhs - (1 if isinstance(r, S.StrictGreaterThan) else 0)))) is True:
-                pass
-    if ok_hi and ok_lo:
+    slacks = _slacks(S, rels)
+    ok_hi = _nonneg_with(S, gap, slacks)
+    ok_lo = _nonneg_with(S, lo2, slacks)
+    wraps = wraps or {}
+    ok_wrap = all(_nonneg_with(S, _apply_eqs(S, w, rels), slacks) for ws in wraps.values() for w in ws)
+    if ok_hi and ok_lo and ok_wrap:
         return ("PROVED", "max index %s < dimension %s" % (hi, dim), None)
     if unparsed:
         return ("UNKNOWN", "a guard on the path could not be interpreted", None)
@@ -625,7 +718,8 @@ def decide(S, lo, hi, dim, rels, loops, unparsed, extra_nonempty=(), disjuncts=N
     if disjuncts is None:
         disjuncts = [rels]
     allrels = [r for dj in disjuncts for r in dj]
-    syms = sorted((dim - hi).free_symbols | lo.free_symbols | set().union(*[r.free_symbols for r in allrels]) | set().union(*[(a - b).free_symbols for a, b in loops.values()]), key=str)
+    syms = sorted((dim - hi).free_symbols | lo.free_symbols | set().union(*[r.free_symbols for r in allrels]) | set().union(*[(a - b).free_symbols for a, b in loops.values()]) |
+                  set().union(*[w.free_symbols for ws in wraps.values() for w in ws]), key=str)
     if len(syms) > 6:
         return ("UNKNOWN", "too many size symbols for the witness grid", None)
     for vals in itertools.product(range(0, 4), repeat=len(syms)):
@@ -633,8 +727,12 @@ def decide(S, lo, hi, dim, rels, loops, unparsed, extra_nonempty=(), disjuncts=N
         try:
             if not any(all(bool(r.subs(env)) for r in dj) for dj in disjuncts):
                 continue
-            if not all((b - a).subs(env) > 0 for a, b in loops.values()):
+            wrapped = {nm for nm, ws in wraps.items() if any(w.subs(env) < 0 for w in ws)}
+            if not all((b - a).subs(env) > 0 for nm, (a, b) in loops.items() if nm not in wrapped):
                 continue
+            if wrapped:
+                return ("REFUTED", "the bound of the loop on '%s' is computed in unsigned arithmetic and wraps around below zero, so the index runs past the dimension" % sorted(wrapped)[0],
+                        {str(k): int(v) for k, v in env.items()})
             h, d, l = hi.subs(env), dim.subs(env), lo.subs(env)
             if not (h.is_number and d.is_number and l.is_number):
                 continue
@@ -691,8 +789,10 @@ def analyse(fb, f, invariants=None, public=True):
                 res.append((c, ctext, render(idx), dimk, "UNKNOWN", "index is not a size/loop expression", None))
                 continue
             lo, hi, loops = b
+            approx = loops.pop("~approx", None) is not None
+            wraps = {nm: ws for (nm, _), ws in fun.wrap.items() if nm in loops}
             cl, why = fun.control(c)
             loops = dict(cl, **loops)
-            v = decide(S, lo, hi, dims[pos], rels, loops, unparsed, disjuncts=fun.disjuncts, blocked=why or (fun.local_atoms and "path condition on a local flag"))
+            v = decide(S, lo, hi, dims[pos], rels, loops, unparsed, disjuncts=fun.disjuncts, blocked=why or (fun.local_atoms and "path condition on a local flag") or (approx and "triangular loop: start approximated by its smallest value"), wraps=wraps)
             res.append((c, ctext, render(idx), dimk) + v)
     return res
